@@ -3,8 +3,11 @@ CFG = {
     "cmd": "c01",
     "batches": lambda tier, seed: [("exhaustive", "-mode exhaustive -tier %s" % tier),
                                    ("interleave", "-mode interleave -tier %s" % tier),
+                                   ("scale", "-mode scale -tier %s" % tier),
+                                   ("selections", "-mode selections -tier %s" % tier),
                                    ("random", "-mode random -tier %s" % tier)],
     "signatures": {},
+    "max_report": 1,       # one shrunk replay per batch (shrinking a hang costs a watchdog deadline per step)
     "model_args": "-prop C01",
     "rule": "exhaustive: every history over the alphabet Put k (4 keys) | Delete k | DeleteMin | DeleteMax | DeleteAll up to the "
             "length bound x {BST, AVL, Red-Black} x {ascending, reverse, a-b, b-a, 3*(a-b)} comparators (the difference-valued ones return "
@@ -17,6 +20,9 @@ CFG = {
             "before and after every mutator, DeleteAll and re-use after it included; retention probes: returned Range slices and "
             "SelectMatch/PartitionMatch collections are kept, re-read after later queries and mutations (an answer already given cannot "
             "change) and finally overwritten, after which the table is queried again; "
+            "scale: 120 / 400 keys (thorough up to 1000) inserted in sorted / reverse / zig-zag / random order, then every kind of query near both ends and "
+            "in the middle under the CPU-time watchdog; selections: the history continues ON the table returned by SelectMatch / PartitionMatch "
+            "(selection sizes 1..100) with the queries after every step; "
             "random: universes up to 64 keys, up to 400 steps, sorted / reverse / zig-zag / random insertion prefixes, churn with "
             "interleaved random queries (absent keys included), DeleteMin / DeleteMax / alternating drains. "
             "A case is non-trivial when at least two mutators changed the number of keys and the table reached two or more keys; "
